@@ -340,9 +340,77 @@ def rule_sign(run):
               'the value appended to the history is not multiplied by [1,-1][reverse]', where=hi.where())
 
 
+def rule_selection(run):
+    run.rule('SELORDER', 'history.ordered_selection: every value put into a converted selection item is assigned within the same '
+             'loop iteration on every path (no flag carried over from the previous item), and each per-table selection list is '
+             'sorted by the line index its sequential reader advances on (full-table row for full output, short-table line for '
+             'short output)', floor=3)
+    prog = run.prog
+    hi = prog.func('t2listing.t2listing.history')
+    osel = prog.nested(hi, 'ordered_selection')
+    loops = [n for n in walk_no_nested(osel.node) if isinstance(n, ast.For) and 'selection' in norm(n.iter)]
+    key = 'history.ordered_selection :: selection item built from values assigned in the same iteration'
+    if not loops:
+        run.unknown(key, 'conversion loop not found', where=osel.where())
+    else:
+        lp = loops[0]
+        apps = [c for c in ast.walk(lp) if isinstance(c, ast.Call) and call_name(c) == 'append' and norm(c.func.value) == 'converted_selection']
+        if len(apps) != 1 or not isinstance(apps[0].args[0], ast.Tuple):
+            run.unknown(key, 'append of the converted item not found', where=osel.where(lp))
+        else:
+            stmt = None
+            for st in ast.walk(lp):
+                if isinstance(st, ast.Expr) and st.value is apps[0]: stmt = st
+            da = flow.DefAssign()
+            targets = set()
+            flow.DefAssign.targets(lp.target, targets)
+
+            class Probe(flow.Analysis):
+                states = []
+                def transfer(self, st, s):
+                    if st is stmt: Probe.states.append(s)
+                    return da.transfer(st, s)
+                def loop_head(self, n, s): return da.loop_head(n, s)
+                def join(self, a, b): return da.join(a, b)
+            Probe.states = []
+            flow.run(Probe(), lp.body, frozenset(targets))
+            assigned = None
+            for s_ in Probe.states: assigned = s_ if assigned is None else (assigned & s_)
+            names = [e.id for e in apps[0].args[0].elts if isinstance(e, ast.Name)]
+            stale = [n for n in names if assigned is not None and n not in assigned]
+            if assigned is None: run.unknown(key, 'append not reached', where=osel.where(lp))
+            elif stale:
+                run.violated(key, '%s can reach the appended item without having been assigned in this iteration: the value left by the previous '
+                             'selection item is used (a row given by integer index inherits the reversed-name flag of the item before it and '
+                             'comes back negated)' % stale, where=osel.where(apps[0]))
+            else: run.ok(key, names, where=osel.where(apps[0]))
+    # sortedness of the per-table lists
+    conv_sorted = any(isinstance(c, ast.Call) and call_name(c) == 'sort' and norm(c.func.value) == 'converted_selection' for c in ast.walk(osel.node))
+    for lst in ('tselect', 'tselect_short'):
+        key = 'history.ordered_selection :: %s ordered by its own line index' % lst
+        asg = [n for n in ast.walk(osel.node) if isinstance(n, ast.Assign) and norm(n.targets[0]) == lst]
+        if not asg or not isinstance(asg[0].value, (ast.ListComp, ast.Call)):
+            run.unknown(key, 'construction not found', where=osel.where()); continue
+        v = asg[0].value
+        wrapped = isinstance(v, ast.Call) and call_name(v) == 'sorted'
+        comp = v.args[0] if wrapped and v.args else v
+        own = wrapped or any(isinstance(c, ast.Call) and call_name(c) == 'sort' and norm(c.func.value) == lst for c in ast.walk(osel.node))
+        lead = norm(comp.elt.elts[0]) if isinstance(comp, ast.ListComp) and isinstance(comp.elt, ast.Tuple) else None
+        tgt = [norm(e) for e in comp.generators[0].target.elts] if isinstance(comp, ast.ListComp) and isinstance(comp.generators[0].target, ast.Tuple) else []
+        inherited = conv_sorted and len(tgt) > 1 and lead == tgt[1]      # converted_selection sorted by (table, full index, ...)
+        want = 'i' if lst == 'tselect' else 'ishort'
+        if lead is not None and lead != want and lead in tgt:
+            run.violated(key, 'the list leads with `%s`, but its reader advances on `%s`' % (lead, want), where=osel.where(asg[0]))
+        elif own or inherited: run.ok(key, 'sorted' if own else 'inherits the order of converted_selection', where=osel.where(asg[0]))
+        else:
+            run.violated(key, '%s is never sorted by `%s`: history() reads each table forwards only, so an item whose line lies before the '
+                         'previous item\'s re-uses the line already read and returns the wrong row' % (lst, lead), where=osel.where(asg[0]))
+
+
 def check(run):
     run.guarded('NONE', rule_none)
     run.guarded('LOOPEXIT', rule_loopexit)
     run.guarded('RESTORE', rule_restore)
     run.guarded('FRAME', rule_frame)
     run.guarded('SIGN', rule_sign)
+    run.guarded('SELORDER', rule_selection)
